@@ -1,11 +1,13 @@
 import TakVerif.Impl.FPA
 import TakVerif.Generated.FuncsFPA
+import TakVerif.Proofs.GenMove
 
 /-! Tie #1 for C20: the geometric helpers of `cmd/internal/playtak/fpa.go` - `isCentered`, `isCenterAdjacent`,
 `distance`, `dir` - are regenerated from the source on every run; the hand-written helpers of `Impl/FPA.lean`
 (on which the C20 theorems rest) are proved equal to them.  `p *tak.Position` enters the two centre tests only
 through `p.Size()`, which is the parameter `p_Size` of the regenerated functions.  Go computes `mid` and `mid±k` in
-`int8`; the model in `Int`: equal for every board size below 250 (the engine accepts 3..8). -/
+`int8`; the model in `Int`: equal for every board size below 250 (the engine accepts 3..8).  `Move.IsSlide` and
+`Move.Dest` (with `Slides.Len`), which `LegalMove` calls, are regenerated from `tak/move.go`, `tak/slide.go`. -/
 namespace C20
 open Tak FPA
 
@@ -63,5 +65,18 @@ theorem dir_is_source (x y ex ey : Int) :
 
 example : Gen.isCentered 5 (genSquare 2 2) = true ∧ Gen.isCenterAdjacent 6 (genSquare 2 1) = true ∧
     Gen.distance (-128) 0 127 0 = 1 ∧ Gen.dir 1 1 1 1 = none := by decide
+
+/-- `m.IsSlide()` as the `LegalMove` scripts use it -/
+theorem isSlide_is_source (m : Move) (h : m.type < 256) : m.isSlide = Gen.moveIsSlide (GenMove.genMove m) :=
+  GenMove.isSlide_is_source m h
+
+/-- `m.Dest()` of the scripts (`destOf`: `none` = `panic("bad type")`) -/
+theorem destOf_is_source (m : Move) (h : m.type < 256) :
+    destOf m = match Gen.moveDest (GenMove.genMove m) with
+      | some d => .ok d
+      | none => .error (.panic "Dest: bad type") := by
+  unfold destOf; rw [GenMove.dest_is_source m h]; cases Gen.moveDest (GenMove.genMove m) <;> rfl
+
+example : Gen.moveDest (GenMove.genMove ⟨2, 2, 5, 1#32⟩) = some (1, 2) := by decide
 
 end C20
